@@ -170,3 +170,91 @@ func VerifC05Cond() {
 	}
 	nd.Reach("end")
 }
+
+// VerifC05Boundary: existence guards and value conditions on a target whose attribute z holds a boundary
+// value - NULL, false, the number 0, an empty string, an empty list, an empty map: such an attribute exists.
+// Table with a sort key; a bystander in the same partition (its sort key is symbolic and may be the target's
+// neighbour on either side) has no z and never matters. A refusal changes nothing.
+func VerifC05Boundary() {
+	c := vClient(true)
+	ts := nd.StringN("target.s", 1)
+	bs := nd.StringN("bystander.s", 1)
+	nd.Assume(ts != bs)
+	boundary := []types.AttributeValue{&types.AttributeValueMemberNULL{Value: true}, &types.AttributeValueMemberBOOL{Value: false}, vN("0"), vS(""),
+		&types.AttributeValueMemberL{Value: []types.AttributeValue{}}, &types.AttributeValueMemberM{Value: vItem{}}}
+	present := nd.Choice("target-present", 2) == 1
+	hasZ := false
+	if present {
+		it := vItem{"p": vS("t"), "s": vS(ts), "v": vS("old")}
+		if nd.Choice("target-has-z", 2) == 1 {
+			hasZ = true
+			it["z"] = boundary[nd.Choice("boundary-value", len(boundary))]
+		}
+		nd.Assert(vPut(c, it) == nil, "C05-setup-put")
+	}
+	nd.Assert(vPut(c, vItem{"p": vS("t"), "s": vS(bs), "v": vS("by")}) == nil, "C05-setup-put")
+	count := func() int { return len(vScanAll(c)) }
+	n0 := count()
+	var cond string
+	var want bool
+	switch nd.Choice("cond", 5) {
+	case 0:
+		cond, want = "attribute_exists(z)", hasZ
+	case 1:
+		cond, want = "attribute_not_exists(z)", !hasZ
+	case 2:
+		cond, want = "attribute_exists(z) AND v = :old", hasZ
+	case 3:
+		cond, want = "attribute_not_exists(z) AND attribute_exists(p)", present && !hasZ
+	case 4:
+		cond, want = "NOT attribute_exists(z) OR v <> :old", !hasZ
+	}
+	var vals vItem
+	if cond[len(cond)-4:] == ":old" {
+		vals = vItem{":old": vS("old")}
+	}
+	key := vItem{"p": vS("t"), "s": vS(ts)}
+	var err error
+	op := nd.Choice("op", 3)
+	switch op {
+	case 0:
+		_, err = c.PutItem(vCtx, &dynamodb.PutItemInput{TableName: aws.String(vTbl), Item: vItem{"p": vS("t"), "s": vS(ts), "v": vS("new")},
+			ConditionExpression: aws.String(cond), ExpressionAttributeValues: vals})
+	case 1:
+		uv := vItem{":n": vS("new")}
+		for k, v := range vals {
+			uv[k] = v
+		}
+		_, err = c.UpdateItem(vCtx, &dynamodb.UpdateItemInput{TableName: aws.String(vTbl), Key: key,
+			UpdateExpression: aws.String("SET v = :n"), ConditionExpression: aws.String(cond), ExpressionAttributeValues: uv})
+	case 2:
+		_, err = c.DeleteItem(vCtx, &dynamodb.DeleteItemInput{TableName: aws.String(vTbl), Key: key,
+			ConditionExpression: aws.String(cond), ExpressionAttributeValues: vals})
+	}
+	var ccf *types.ConditionalCheckFailedException
+	got, gerr := vGet(c, key)
+	nd.Assert(gerr == nil, "C05-boundary-get-noerr")
+	gv, _ := vGetS(got, "v")
+	if want {
+		nd.Reach("condition-true")
+		nd.Assert(err == nil, "C05-boundary-true-condition-takes-effect ["+cond+"]")
+		if op == 2 {
+			nd.Assert(len(got) == 0, "C05-boundary-delete-applied")
+		} else {
+			nd.Assert(gv == "new", "C05-boundary-write-applied")
+		}
+	} else {
+		nd.Reach("condition-false")
+		nd.Assert(err != nil && errors.As(err, &ccf), "C05-boundary-false-condition-is-refused ["+cond+"]")
+		nd.Assert(count() == n0, "C05-boundary-refusal-changes-nothing")
+		if present {
+			nd.Assert(gv == "old", "C05-boundary-refusal-keeps-target")
+		} else {
+			nd.Assert(len(got) == 0, "C05-boundary-refusal-keeps-target-absent")
+		}
+	}
+	by, berr := vGet(c, vItem{"p": vS("t"), "s": vS(bs)})
+	bv, _ := vGetS(by, "v")
+	nd.Assert(berr == nil && bv == "by" && len(by) == 3, "C05-boundary-bystander-untouched")
+	nd.Reach("end")
+}
